@@ -302,12 +302,26 @@ def run_bounded(run, cfg):
             path = run.replay_path('bounded')
             json.dump({'property': run.pid, 'sidecar': sidecar, 'kind': 'custom', 'replay_fn': fl.get('replay_fn', fn + '_replay'),
                        'fid': fl.get('fid', f'{sidecar}.{fn}'), 'case': fl.get('case'), 'native': fl}, open(path, 'w'), indent=1)
-            run.violations.append({'fid': fl.get('fid', f'{sidecar}.{fn}'), 'clause': fl.get('clause', fl.get('detail', '')),
-                                   'kind': 'bounded', 'replay': path, 'note': fl.get('detail', ''), 'input': True})
+            v = {'fid': fl.get('fid', f'{sidecar}.{fn}'), 'clause': fl.get('clause', fl.get('detail', '')),
+                 'kind': 'bounded', 'replay': path, 'note': fl.get('detail', ''), 'input': True}
+            if isinstance(fl.get('also'), list):
+                # every failing case of this clause (capped by the check): a known finding is identified by its
+                # recorded cases, any other failing case of the same clause is reported as a new violation
+                v['also'] = fl['also']
+                v['custom'] = {'sidecar': sidecar, 'replay_fn': fl.get('replay_fn', fn + '_replay')}
+            run.violations.append(v)
+
+
+KNOWN_CASES = os.path.join(ROOT, 'known_cases.json')
+
+
+def case_key(pid, fid, clause):
+    return f'{pid}|{fid}|{clause}'
 
 
 def apply_known(run):
     known = load_json(KNOWN, {'known': [], 'fixed': []})
+    cases = load_json(KNOWN_CASES, {})
     remaining = []
     seen = set()
     uniq = []
@@ -329,8 +343,27 @@ def apply_known(run):
         if hit:
             if hit not in run.known_hits:
                 run.known_hits.append(hit)
+            recorded = cases.get(case_key(run.pid, v['fid'], v['clause']))
+            if recorded is not None and v.get('also') is not None:
+                rec = set(recorded)
+                new = [c for c in v['also'] if json.dumps(c, sort_keys=True) not in rec]
+                if new:
+                    path = run.replay_path('bounded')
+                    json.dump({'property': run.pid, 'sidecar': v['custom']['sidecar'], 'kind': 'custom',
+                               'replay_fn': v['custom']['replay_fn'], 'fid': v['fid'], 'case': new[0],
+                               'native': {'clause': v['clause'],
+                                          'detail': 'failing input that is not among the recorded inputs of the known '
+                                                    'finding for this clause', 'new_cases': new[:20]}},
+                              open(path, 'w'), indent=1)
+                    remaining.append({'fid': v['fid'], 'clause': v['clause'], 'kind': 'bounded', 'replay': path,
+                                      'input': True,
+                                      'note': f'{len(new)} failing input(s) not among the recorded inputs of the known '
+                                              f'finding for this clause, first: {json.dumps(new[0], sort_keys=True)[:300]}'})
         else:
             remaining.append(v)
+    dump = [{'fid': v['fid'], 'clause': v['clause'], 'also': v['also']} for v in run.violations if v.get('also') is not None]
+    os.makedirs(os.path.join(ROOT, 'replays', run.pid), exist_ok=True)
+    json.dump({'repo': REPO, 'fails': dump}, open(os.path.join(ROOT, 'replays', run.pid, f'fails_{run.tier}.json'), 'w'))
     run.violations = remaining
     return known
 
